@@ -12,7 +12,7 @@ use serde_json::{json, Value};
 pub static DEF: PropDef = PropDef {
     id: "C03",
     level: "exploration",
-    rule: "inputs D as in C02. Oracle: system zlib inflate (raw mode, 32 KiB window) run on the same bytes; \
+    rule: "inputs D as in C02, plus a deterministic family of 768 streams with a stored block at every bit phase behind a fixed-Huffman block, whose LEN bytes alias the payload (a reader one byte late still finds a consistent LEN/NLEN pair). Oracle: system zlib inflate (raw mode, 32 KiB window) run on the same bytes; \
 whenever decompress_deflate_stream accepts D and zlib reaches Z_STREAM_END, plain_text == zlib output and \
 compressed_size == zlib total_in; for streams produced by a real compressor from plaintext P, plain_text == P. \
 Enumerated sub-space: every (length 3..258, distance 1..32768) pair, 258 in both codings, under the fixed code and \
@@ -272,6 +272,23 @@ fn worker(ctx: &mut Ctx) {
     }));
     ctx.set_inflight(&json!({"kind":"between"}));
 
+    // deterministic family: stored blocks at every bit phase whose LEN bytes alias the payload
+    for v in 0..768u64 {
+        if v % ctx.cfg.nshards as u64 != ctx.cfg.shard as u64 {
+            continue;
+        }
+        if let Some((stream, plain, _desc)) = crate::gen_syn::stored_phase_stream(v) {
+            let doc = bytes_doc(&stream);
+            ctx.set_inflight(&doc);
+            let labels = vec!["syn:stored-phase(LEN aliases payload)".to_string()];
+            if let Err(f) = check(&stream, Some(&plain), ctx, &labels) {
+                if !ctx.is_known(&f) {
+                    ctx.record_failure(&f, &doc);
+                }
+                break;
+            }
+        }
+    }
     let run = DnaRun {
         cases: ctx.cfg.share(cases),
         max_dna: 700,
